@@ -25,6 +25,18 @@ ALLF = ["K", "space", "expanded", "skipped", "parent", "cand", "seeds", "sets", 
 INVN = None
 
 
+# least number of fixed variables among the nodes of a (non-empty) list: the measure of the level loops of expand_bfs / expand_to_target
+MinRank = z3.Function("MinRank", z3.ArraySort(I, T.SpaceS), LI.sort(), I)
+_sp_, _l_, _a_ = z3.Const("sp!mr", z3.ArraySort(I, T.SpaceS)), z3.Const("l!mr", LI.sort()), z3.Int("a!mr")
+AX_MINRANK = [
+    z3.ForAll([_sp_, _l_, _a_], z3.Implies(z3.And(0 <= _a_, _a_ < LI.len(_l_)), T.card(_sp_[LI.at(_l_)[_a_]]) >= MinRank(_sp_, _l_)),
+              patterns=[z3.MultiPattern(MinRank(_sp_, _l_), LI.at(_l_)[_a_])]),
+    z3.ForAll([_sp_, _l_], z3.Implies(LI.len(_l_) > 0, z3.Exists([_a_], z3.And(0 <= _a_, _a_ < LI.len(_l_), T.card(_sp_[LI.at(_l_)[_a_]]) == MinRank(_sp_, _l_)))),
+              patterns=[MinRank(_sp_, _l_)]),
+]
+T.LEMMAS["def.MinRank"] = "MinRank(spaces, l) is the least card(spaces[x]) over the nodes x of the non-empty list l   [definition of a minimum over a finite list]"
+
+
 def inv_names():
     global INVN
     if INVN is None:
@@ -52,6 +64,18 @@ def install(reg):
         return z3.Implies(z3.And(seen[x], z3.Not(pending)), z3.And(v.expanded[x], z3.ForAll([y], z3.Implies(v.edge[x][y], seen[y]))))
 
     # ------------------------------------------------------------------ expand_bfs
+    def rank(v, xx):
+        return T.card(v.space[xx])
+
+    def level_rank(c, lst, lvl):
+        """every node of the list fixes at least `lvl` variables (termination of the level loop: a level deeper than nvars is empty)"""
+        return z3.ForAll([a], z3.Implies(z3.And(0 <= a, a < LI.len(lst)), rank(c.sd, LI.at(lst)[a]) >= lvl))
+
+    def lem_card(c):
+        sq = z3.Const("s!cbb", T.SpaceS)
+        Nn = S.net(c.sd)
+        return z3.ForAll([sq], z3.Implies(z3.And(T.wf_space(sq), T.dom_within(sq, Nn)), T.card(sq) <= T.nvars(Nn)), patterns=[T.card(sq)])
+
     def bfs_inv0(c):
         v, seen, cur = c.sd, c.seen, c.current_level
         return common_sd(c) + [
@@ -71,6 +95,8 @@ def install(reg):
             ("level_seen", z3.ForAll([a], z3.Implies(z3.And(0 <= a, a < LI.len(cur)), seen[LI.at(cur)[a]]))),
             ("next_seen", z3.ForAll([a], z3.Implies(z3.And(0 <= a, a < LI.len(nxt)), seen[LI.at(nxt)[a]]))),
             ("closed_except_pending", z3.ForAll([x], processed(v, seen, x, pend(x)))),
+            ("level_spaces_kept", z3.ForAll([a], z3.Implies(z3.And(0 <= a, a < LI.len(cur)), v.space[LI.at(cur)[a]] == c.head(0).sd.space[LI.at(cur)[a]]))),
+            ("next_level_is_deeper", level_rank(c, nxt, MinRank(c.head(0).sd.space, cur) + 1)),
         ]
 
     def common_sd(c):
@@ -105,6 +131,9 @@ def install(reg):
             ("closed_except_pending", z3.ForAll([x], processed(v, seen, x, pend(x)))),
             ("node_is_current", z3.And(0 <= oi, oi < LI.len(cur), LI.at(cur)[oi] == node, seen[node], v.expanded[node])),
             ("node_successors_listed", z3.ForAll([y], z3.Implies(z3.And(v.edge[node][y], z3.Not(seen[y])), in_list(succ, y, lo=c.i)))),
+            ("listed_are_successors", z3.ForAll([a], z3.Implies(z3.And(0 <= a, a < LI.len(succ)), v.edge[node][LI.at(succ)[a]]))),
+            ("level_spaces_kept", z3.ForAll([a], z3.Implies(z3.And(0 <= a, a < LI.len(cur)), v.space[LI.at(cur)[a]] == c.head(0).sd.space[LI.at(cur)[a]]))),
+            ("next_level_is_deeper", level_rank(c, nxt, MinRank(c.head(0).sd.space, cur) + 1)),
         ]
 
     reg.add(Contract(
@@ -119,9 +148,11 @@ def install(reg):
         ensures=[(nm, pick(bfs_post, nm)) for nm in names_common + ["true_means_complete", "false_only_for_a_reason"]],
         raises={"RuntimeError": [(nm, pick(common_sd, nm)) for nm in names_common]},
         lemmas=[("def.AllReachableExpanded", lambda c: S.are_intro(c.sd, start(c), c.seen))],
+        axioms=AX_MINRANK,
         local_types={"seen": SI, "current_level": LI, "next_level": LI, "level_id": TInt, "successors": LI, "node_id": TInt},
         loops={
-            0: LoopContract("while len(current_level) > 0", bfs_inv0, havoc_heap={"sd": ALLF}),
+            0: LoopContract("while len(current_level) > 0", bfs_inv0, havoc_heap={"sd": ALLF}, lemmas=[("def.card(bounded)", lem_card)],
+                            variant=lambda c: [T.nvars(S.net(c.sd)) - MinRank(c.sd.space, c.current_level)]),
             1: LoopContract("for node in current_level", bfs_inv1, havoc_heap={"sd": ALLF},
                             lemmas=[("S.ext_transitive", lambda c: S.ext_trans(c.sd, c.head(1).sd, c.old.sd))]),
             2: LoopContract("for s in successors", bfs_inv2_real, havoc_heap={},
@@ -224,14 +255,33 @@ def install_target(reg):
             ("level_seen", z3.ForAll([a], z3.Implies(z3.And(0 <= a, a < LI.len(c.current_level)), seen[LI.at(c.current_level)[a]]))),
         ]
 
+    def rank(v, xx):
+        return T.card(v.space[xx])
+
+    def level_rank(c, lst, lvl):
+        return z3.ForAll([a], z3.Implies(z3.And(0 <= a, a < LI.len(lst)), rank(c.sd, LI.at(lst)[a]) >= lvl))
+
+    def lem_card(c):
+        sq = z3.Const("s!cbt", T.SpaceS)
+        Nn = S.net(c.sd)
+        return z3.ForAll([sq], z3.Implies(z3.And(T.wf_space(sq), T.dom_within(sq, Nn)), T.card(sq) <= T.nvars(Nn)), patterns=[T.card(sq)])
+
+    def kept(c):
+        cur = c.current_level
+        return ("level_spaces_kept", z3.ForAll([a], z3.Implies(z3.And(0 <= a, a < LI.len(cur)), c.sd.space[LI.at(cur)[a]] == c.head(0).sd.space[LI.at(cur)[a]])))
+
+    def ranks(c):
+        return ("next_level_is_deeper", level_rank(c, c.next_level, MinRank(c.head(0).sd.space, c.current_level) + 1))
+
     def inv0(c):
+        v, cur = c.sd, c.current_level
         return base(c) + [("next_empty", LI.len(c.next_level) == 0),
                           ("closed_except_level", z3.ForAll([x], processed(c.sd, c.seen, x, in_list(c.current_level, x), c.target)))]
 
     def inv1(c):
         pend = lambda xx: z3.Or(in_list(c.current_level, xx, lo=c.i), in_list(c.next_level, xx))
         return base(c) + [("next_seen", z3.ForAll([a], z3.Implies(z3.And(0 <= a, a < LI.len(c.next_level)), c.seen[LI.at(c.next_level)[a]]))),
-                          ("closed_except_pending", z3.ForAll([x], processed(c.sd, c.seen, x, pend(x), c.target)))]
+                          ("closed_except_pending", z3.ForAll([x], processed(c.sd, c.seen, x, pend(x), c.target))), kept(c), ranks(c)]
 
     def inv2(c):
         oi = c.outer(1)["i"]
@@ -240,7 +290,9 @@ def install_target(reg):
         return base(c) + [("next_seen", z3.ForAll([a], z3.Implies(z3.And(0 <= a, a < LI.len(c.next_level)), c.seen[LI.at(c.next_level)[a]]))),
                           ("closed_except_pending", z3.ForAll([x], processed(c.sd, c.seen, x, pend(x), c.target))),
                           ("node_is_current", z3.And(0 <= oi, oi < LI.len(c.current_level), LI.at(c.current_level)[oi] == node, c.seen[node], c.sd.expanded[node])),
-                          ("node_successors_listed", z3.ForAll([y], z3.Implies(z3.And(c.sd.edge[node][y], z3.Not(c.seen[y])), in_list(c.successors, y, lo=c.i))))]
+                          ("node_successors_listed", z3.ForAll([y], z3.Implies(z3.And(c.sd.edge[node][y], z3.Not(c.seen[y])), in_list(c.successors, y, lo=c.i)))),
+                          ("listed_are_successors", z3.ForAll([a], z3.Implies(z3.And(0 <= a, a < LI.len(c.successors)), c.sd.edge[node][LI.at(c.successors)[a]]))),
+                          kept(c), ranks(c)]
 
     def post(c):
         v, r = c.sd, c.result
@@ -266,8 +318,10 @@ def install_target(reg):
         modifies={"sd": ALLF}, may_raise={"RuntimeError": {"modifies": {"sd": ALLF}}},
         ensures=[(nm, pick(post, nm)) for nm in names_common + ["true_means_target_region_explored", "false_only_at_size_limit_with_a_stub"]],
         raises={"RuntimeError": [(nm, pick(common_sd, nm)) for nm in names_common]},
+        axioms=AX_MINRANK,
         local_types={"seen": SI, "current_level": LI, "next_level": LI, "level_id": TInt, "successors": LI},
-        loops={0: LoopContract("while len(current_level) > 0", inv0, havoc_heap={"sd": ALLF}),
+        loops={0: LoopContract("while len(current_level) > 0", inv0, havoc_heap={"sd": ALLF}, lemmas=[("def.card(bounded)", lem_card)],
+                               variant=lambda c: [T.nvars(S.net(c.sd)) - MinRank(c.sd.space, c.current_level)]),
                1: LoopContract("for node in current_level", inv1, havoc_heap={"sd": ALLF}, lemmas=tr),
                2: LoopContract("for s in successors", inv2, havoc_heap={}, lemmas=tr)},
     ))
